@@ -210,6 +210,89 @@ let run_c06 (name : string) (root : int) (ops : string list) : string =
     | _ -> Some "badop") ops in
   String.concat " " out
 
+(* ---- C09: parse a raw dump into a cval ---- *)
+let parse_cval (s : string) : cval =
+  let pos = ref 0 in
+  let n = String.length s in
+  let peek () = if !pos < n then s.[!pos] else '\000' in
+  let rec value () : cval =
+    match peek () with
+    | '{' ->
+      incr pos;
+      if peek () = '}' then (incr pos; CStruct []) else begin
+        let items = ref [] in
+        let continue = ref true in
+        while !continue do
+          items := field () :: !items;
+          if peek () = ',' then incr pos else continue := false
+        done;
+        if peek () <> '}' then failwith "expected }";
+        incr pos;
+        CStruct (List.rev !items)
+      end
+    | '<' ->
+      incr pos;
+      let j = ref !pos in
+      while !j < n && s.[!j] >= '0' && s.[!j] <= '9' do incr j done;
+      let tag = int_of_string (String.sub s !pos (!j - !pos)) in
+      pos := !j;
+      let v = if peek () = ':' then (incr pos; value ()) else CNil in
+      if peek () <> '>' then failwith "expected >";
+      incr pos;
+      COneof (n_of_int tag, v)
+    | '[' ->
+      incr pos;
+      if peek () = ']' then (incr pos; CArr []) else begin
+        let items = ref [] in
+        let continue = ref true in
+        while !continue do
+          items := value () :: !items;
+          if peek () = ',' then incr pos else continue := false
+        done;
+        if peek () <> ']' then failwith "expected ]";
+        incr pos;
+        CArr (List.rev !items)
+      end
+    | '(' ->
+      incr pos;
+      if peek () = ')' then (incr pos; CMap []) else begin
+        let items = ref [] in
+        let continue = ref true in
+        while !continue do
+          let k = value () in
+          if peek () <> '=' then failwith "expected =";
+          incr pos;
+          let v = value () in
+          items := (k, v) :: !items;
+          if peek () = ';' then incr pos else continue := false
+        done;
+        if peek () <> ')' then failwith "expected )";
+        incr pos;
+        CMap (List.rev !items)
+      end
+    | 'n' when !pos + 3 <= n && String.sub s !pos 3 = "nil" -> pos := !pos + 3; CNil
+    | _ ->
+      let j = ref (!pos + 1) in
+      while !j < n && not (String.contains ",}>];)=" s.[!j]) do incr j done;
+      let tok = String.sub s !pos (!j - !pos) in
+      pos := !j;
+      let body = String.sub tok 1 (String.length tok - 1) in
+      (match tok.[0] with
+       | 'b' -> CBool (body = "1")
+       | 'u' -> CU64 (n_of_string body)
+       | 'i' -> CI64 (cz_of_string body)
+       | 'f' -> CF64 (n_of_z (BigZ.of_string ("0x" ^ body)))
+       | 's' -> CStr (bytes_of_hex (if body = "" then "-" else body))
+       | _ -> failwith ("bad prim " ^ tok))
+  and field () : (bool option * cval) =
+    match peek () with
+    | '?' -> incr pos; (Some true, value ())
+    | '~' -> incr pos; (Some false, value ())
+    | _ -> (None, value ()) in
+  let v = value () in
+  if !pos <> n then failwith "trailing input";
+  v
+
 let handle line =
   match split_on ' ' line with
   | "schema" :: name :: toks -> Hashtbl.replace schemas name (parse_schema toks); "ok"
@@ -225,6 +308,8 @@ let handle line =
        if int_of_n compr <> 0 then "open:compressed"
        else run_read name (int_of_string root) (SrcBytes rest) true)
   | ["read"; name; root; "frames"; spec] -> run_read name (int_of_string root) (parse_frames_spec spec) true
+  | ["cmp"; a; b] ->
+    (match cmp (parse_cval a) (parse_cval b) with Lt -> "-1" | Eq -> "0" | Gt -> "1")
   | "c06" :: name :: root :: ops -> run_c06 name (int_of_string root) ops
   | ["counts"; name; root] ->
     let sc = Hashtbl.find schemas name in
